@@ -1,5 +1,7 @@
 package mqtt
 
+import "errors"
+
 // C05 (a): remainingLength(n) for a free 64-bit n in [0, 268435455] equals the
 // spec's minimal variable-length encoding and decodes back to n.
 
@@ -329,4 +331,20 @@ func VerifH_C05_Inbound() {
 	}
 	chk(got[0], b, "")
 	chk(got[1], a, "_parked_qos2")
+}
+
+// C05 (b): the remaining-length decoder of readPacket accepts every minimal encoding up to the protocol
+// maximum and asks for exactly that many body bytes (n is a free 64-bit value; the allocation is cut).
+func VerifH_C05_ReadLength() {
+	n := verifNondetInt("n")
+	verifAssume(verifAnd(n >= 0, n <= 268435455))
+	hdr := append([]byte{0x30}, refEncodeRL(n)...)
+	verifExpectMakeEq("readPacket", n)
+	_, _, _, err := readPacket(&sliceReader{b: hdr})
+	verifReach("read")
+	// with no body bytes available the only legitimate outcomes are success for n == 0 and a short read otherwise
+	verifAssert(!errors.Is(err, ErrInvalidPacketLength), "C05.inbound_length_accepted_up_to_max")
+	if n == 0 {
+		verifAssert(err == nil, "C05.inbound_empty_body")
+	}
 }
